@@ -737,7 +737,6 @@ where
                 debug_assert!(accesses.write_set.is_empty());
                 let blocked_on_estimate = accesses.is_blocked();
                 let IncarnationAccesses { blocking_txs, blocked_by_beneficiary, .. } = accesses;
-                let invalid_transaction = matches!(e, EVMError::Transaction(_));
                 #[cfg(grevm_verif)]
                 let verif_invalid = matches!(e, EVMError::Transaction(_));
                 conflict = true;
@@ -777,11 +776,14 @@ where
                     #[cfg(grevm_verif)]
                     crate::verif::p2("exec_err_gate", txid as i64, verif_invalid as i64);
                     if self.scheduler_ctx.committed_idx() == txid {
-                        if invalid_transaction {
-                            self.abort(AbortReason::FallbackSequential);
-                        } else {
-                            self.abort(AbortReason::FatalEvmError(txid));
-                        }
+                        // A speculative attempt runs with the nonce check disabled and may have
+                        // started before its predecessors committed, so neither its error nor the
+                        // fact that it failed at all is authoritative, and a later attempt may
+                        // replace the recorded error before it is reported. Replay from the
+                        // committed prefix instead: sequential execution skips the transaction if
+                        // in-order validation rejects it and otherwise returns exactly the error
+                        // in-order execution meets, if any.
+                        self.abort(AbortReason::FallbackSequential);
                     }
                     self.tx_dependency.key_tx(txid, self.scheduler_ctx.commit_cursor());
                 }
